@@ -50,7 +50,10 @@
 (*                                                                         *)
 (* Laws (none mentions the steps of the loop body)                         *)
 (*   NoStaleErrors     every stored value is F of its stored vertex        *)
-(*   RankOK            highest / lowest / secondhighest mean what they say *)
+(*   RankOK            highest / lowest are the FIRST vertex with the      *)
+(*                     largest / smallest value, errors[secondhighest] is  *)
+(*                     the largest value among the others (only its value  *)
+(*                     is used, so its index is not compared)              *)
 (*   BestNeverIncreases (action) min(E) never goes up                      *)
 (*   OnlyWorstMoves    (action) a pass changes the highest vertex only,    *)
 (*                     to a strictly better value, or (multiple            *)
@@ -88,7 +91,12 @@
 (* ReturnIsVertexValue (maxit = 0: lowest = -1 pairs x0 with the value of  *)
 (* the last vertex): Simplex_asis_best.cfg / Simplex_asis_value.cfg.       *)
 (*                                                                         *)
-(* Bounds: K = 6..10, |x| <= BOX, maxit <= 8 (n=1), 5 (n=2), 3 (n=4).      *)
+(* Bounds: K = 6..10, |x| <= BOX = 6, maxit <= 8 (n=1), 5 (n=2), 3 (n=3,4). *)
+(* Case sets Cases_q (1460 cases, 12k states, 7 s), Cases_eps (2818 cases, *)
+(* 20k states), Cases_t1 t2 t2k t3 t4 (thorough: 9720 + 4860 + 810 + 432 + *)
+(* 2916 cases, ~230k states).  Emit prints one JSON record per finished    *)
+(* behaviour: the case, the evaluation log, what every pass saw, the       *)
+(* actions, the final state, the as-is return and the best vertex.         *)
 (***************************************************************************)
 EXTENDS SimplexRules, FiniteSets, TLC, Json
 
@@ -411,6 +419,8 @@ Cases_q ==
     \cup Mk(AllFn, 2, {<<0, 0>>, <<2, 6>>, <<12, -4>>}, {<<4, 4>>, <<4, 0>>, <<-4, 8>>}, {EpsNeg, EpsZero, EpsP(12001)},
             {0, 1, 2, 4}, {KDef})
     \cup Mk({"sph", "abs", "sad"}, 2, {<<4, -4>>}, {<<4, 4>>, <<2, 2>>}, {EpsNeg}, {3}, {KAlt})
+    \cup Mk({"plat", "cheb"}, 2, {<<12, -4>>}, {<<4, 4>>}, {EpsNeg}, {1, 2, 3}, {KAlt})     \* multiple contraction with kC # 1/2
+    \cup Mk({"plat"}, 1, {<<5>>}, {<<4>>}, {EpsNeg}, {1, 3}, {KAlt})
     \cup Mk({"sph", "cheb", "plat", "lin"}, 4, {<<0, 0, 0, 0>>}, {<<4, 4, 4, 4>>, <<8, -4, 4, 0>>}, {EpsNeg, EpsZero}, {0, 2}, {KDef})
 Cases_t1 == Mk(AllFn, 1, X1, I1, {EpsNeg, EpsZero, EpsP(12001)}, 0..8, {KDef, KAlt})
 Cases_t2 == Mk(AllFn, 2, X2, I2, {EpsNeg, EpsZero, EpsP(12001)}, 0..5, {KDef})
